@@ -420,7 +420,17 @@ def r12_6(ctx: Ctx, rep: Report) -> None:
     lits: Set[str] = set()
     for n in own_nodes(f.node):
         if isinstance(n, ast.Call) and isinstance(n.func, ast.Attribute) and n.func.attr == "startswith" and n.args:
-            v = ctx.folder.fold(n.args[0], f.module)
+            lenv = ctx.folder.local_env(f)
+            v = ctx.folder.fold(n.args[0], f.module, lenv)
+            if not isinstance(v, (str, tuple, list)) and isinstance(n.args[0], ast.Name):
+                # the prefix is the variable of a loop/comprehension over a constant sequence of prefixes
+                for g_ in own_nodes(f.node):
+                    its = [(c.target, c.iter) for c in g_.generators] if isinstance(g_, (ast.GeneratorExp, ast.ListComp, ast.SetComp)) else ([(g_.target, g_.iter)] if isinstance(g_, ast.For) else [])
+                    for tgt, it in its:
+                        if isinstance(tgt, ast.Name) and tgt.id == n.args[0].id:
+                            seq = ctx.folder.fold(it, f.module, lenv)
+                            if isinstance(seq, (tuple, list, set)) and all(isinstance(x, str) for x in seq):
+                                v = list(seq)
             if isinstance(v, str):
                 lits.add(v)
             elif isinstance(v, (tuple, list)):
